@@ -57,6 +57,18 @@ type pointWriter struct {
 	*httptest.ResponseRecorder
 }
 
+// Header and WriteHeader are scheduling points as well: a real connection may stall a handler anywhere it touches
+// the response.
+func (w pointWriter) Header() http.Header {
+	vrt.Point("http-header", nil)
+	return w.ResponseRecorder.Header()
+}
+
+func (w pointWriter) WriteHeader(code int) {
+	vrt.Point("http-write-header", nil)
+	w.ResponseRecorder.WriteHeader(code)
+}
+
 func (w pointWriter) Write(b []byte) (int, error) {
 	vrt.Point("http-write", nil)
 	return w.ResponseRecorder.Write(b)
@@ -333,14 +345,17 @@ func c17Scenarios(c *fw.Ctx) []*Scenario {
 		"sum-y":      q("/sum", "item", "it.y", "pattern", "*.wsp", "retention", "0", "from", ts(c17Now-5), "until", ts(c17Now), "now", ts(c17Now)),
 		"files-it":   q("/files", "pattern", "it/*/*.wsp"),
 		// requests that fail, each in its own way
-		"view-bad-int": q("/view", "file", "a.wsp", "retention", "bad0", "from", ts(0), "until", ts(c17Now), "now", ts(c17Now)),
-		"view-oor":     q("/view", "file", "a.wsp", "retention", "9", "from", ts(0), "until", ts(c17Now), "now", ts(c17Now)),
-		"view-bad-ts":  q("/view", "file", "b.wsp", "retention", "0", "from", "yesterday", "until", ts(c17Now), "now", ts(c17Now)),
-		"sum-oor":      q("/sum", "item", "it.x", "pattern", "*.wsp", "retention", "9", "from", ts(0), "until", ts(c17Now), "now", ts(c17Now)),
-		"sum-bad-int":  q("/sum", "item", "it.x", "pattern", "*.wsp", "retention", "x", "from", ts(0), "until", ts(c17Now), "now", ts(c17Now)),
-		"sum":          q("/sum", "item", "it.x", "pattern", "*.wsp", "retention", "-1", "from", ts(0), "until", ts(c17Now), "now", ts(c17Now)),
-		"items":        q("/items", "pattern", "it/*"),
-		"files":        q("/files", "pattern", "*.wsp"),
+		"view-bad-int":  q("/view", "file", "a.wsp", "retention", "bad0", "from", ts(0), "until", ts(c17Now), "now", ts(c17Now)),
+		"view-oor":      q("/view", "file", "a.wsp", "retention", "9", "from", ts(0), "until", ts(c17Now), "now", ts(c17Now)),
+		"view-bad-ts":   q("/view", "file", "b.wsp", "retention", "0", "from", "yesterday", "until", ts(c17Now), "now", ts(c17Now)),
+		"view-inverted": q("/view", "file", "a.wsp", "retention", "0", "from", ts(c17Now-1), "until", ts(c17Now-5), "now", ts(c17Now)),
+		"sum-oor":       q("/sum", "item", "it.x", "pattern", "*.wsp", "retention", "9", "from", ts(0), "until", ts(c17Now), "now", ts(c17Now)),
+		"sum-bad-int":   q("/sum", "item", "it.x", "pattern", "*.wsp", "retention", "x", "from", ts(0), "until", ts(c17Now), "now", ts(c17Now)),
+		"sum":           q("/sum", "item", "it.x", "pattern", "*.wsp", "retention", "-1", "from", ts(0), "until", ts(c17Now), "now", ts(c17Now)),
+		// identical to "sum" but for the client's clock: the window's old end is clamped differently
+		"sum-later": q("/sum", "item", "it.x", "pattern", "*.wsp", "retention", "-1", "from", ts(0), "until", ts(c17Now), "now", ts(c17Now+4)),
+		"items":     q("/items", "pattern", "it/*"),
+		"files":     q("/files", "pattern", "*.wsp"),
 	}
 	type hobs struct {
 		code int
@@ -371,8 +386,8 @@ func c17Scenarios(c *fw.Ctx) []*Scenario {
 		return true
 	}
 	combos := [][]string{{"view", "view"}, {"view", "view-raw"}, {"view", "sum"}, {"view", "view-b"}, {"view-raw", "sum"}, {"sum", "sum"}, {"items", "files"}, {"view", "items"}, {"view-raw", "files"}, {"view-raw", "view-raw"},
-		{"view-raw", "view-raw-b"}, {"sum", "sum-y"}, {"files", "files-it"}, {"view-b", "view-raw-b"},
-		{"view-bad-int", "view-oor"}, {"view-bad-ts", "view-oor"}, {"sum-oor", "sum-bad-int"}, {"view-bad-int", "view"},
+		{"view-raw", "view-raw-b"}, {"sum", "sum-y"}, {"sum", "sum-later"}, {"files", "files-it"}, {"view-b", "view-raw-b"},
+		{"view-bad-int", "view-oor"}, {"view-bad-ts", "view-oor"}, {"sum-oor", "sum-bad-int"}, {"view-bad-int", "view"}, {"view-oor", "view-inverted"}, {"view-inverted", "sum-oor"},
 		{"view", "view-raw", "sum"}, {"view", "view-b", "items"}, {"view-raw", "view-raw-b", "view-b"}, {"view-bad-int", "view-oor", "view-bad-ts"}}
 	solos := map[string]hobs{}
 	for _, combo := range combos {
@@ -384,7 +399,7 @@ func c17Scenarios(c *fw.Ctx) []*Scenario {
 		bound := b2
 		nsum := 0
 		for _, n := range combo {
-			if n == "sum" || n == "sum-y" || n == "sum-oor" {
+			if n == "sum" || n == "sum-y" || n == "sum-oor" || n == "sum-later" {
 				nsum++ // a sum request brings two worker threads of its own
 			}
 		}
